@@ -89,6 +89,11 @@ def gen_spec(rng, feat):
     if E > 1 and pars and rng.random() < 0.3:
         for m in range(1, E):       # coinciding values
             spec["param_values"][m][pars[0]] = spec["param_values"][0][pars[0]]
+    if E > 1 and pars and rng.random() < 0.25:
+        # nearly equal values (relative difference 4e-6): still different members
+        base = F(rng.choice([1000, 100000, 250]))
+        for m in range(E):
+            spec["param_values"][m][pars[-1]] = str(base + base * m * F(4, 10 ** 6))
     spec["constant_input_values"] = [{c: [str(dy(rng)) for _ in range(n)] for c in cins} for _ in range(E)]
     if E > 1 and rng.random() < 0.5:
         spec["probabilities"] = [str(F(1, E + 1))] * (E - 1) + [str(1 - F(E - 1, E + 1))]
@@ -110,6 +115,11 @@ def gen_spec(rng, feat):
         for v in pvs + evs:
             if rng.random() < 0.6:
                 spec.setdefault("nominals", {})[v] = str(rng.choice([1, 2, F(1, 4), 10, 100]))
+    if feat.get("modes"):
+        # interpolation method of a variable applies to its history as well
+        for v in coll:
+            if rng.random() < 0.35:
+                spec.setdefault("interpolation", {})[v] = rng.choice([1, 2])
     if feat.get("bounds"):
         b = {}
         for v in pvs + evs:
